@@ -25,6 +25,8 @@ CONSTANTS
   AllowCancel = TRUE
   AllowPanic = TRUE
   ThreadLevel = TRUE
+  HoldAndWait = TRUE
+  UnwindDrops = FALSE
 CHECK_DEADLOCK FALSE
 INVARIANTS RefInv
 PROPERTIES Refines
